@@ -165,6 +165,9 @@ def evalCmp (v : Option Val) (op : Op) (l : Lit) : Tri × Classes :=
     match v with
     | none => (if op == .ne then .either else .no, [])
     | some (.str s) =>
+      -- a wildcard against a value that holds a LINE FEED: the engine turns the pattern into a regular expression whose
+      -- `.` does not cross a line break; whether `*` does is not stated — left to the engine
+      if p.contains '*' && s.contains '\n' && (op == .eq || op == .ne) then (.either, []) else
       match op with
       | .eq => (Tri.ofBool (glob p s), [])
       | .ne => (Tri.ofBool (!glob p s), [])
@@ -224,7 +227,13 @@ def evalFilterAux (e : Event) (neg : Bool) : Filter → Tri × Classes
     -- a wildcard term that matches only an inner token of a value (`ba*` vs "foo bar"): the statement does
     -- not say whether wildcards are anchored at the token or at the value; left to the engine
     let whole := e.fields.any (fun (_, v) => glob w v.text)
-    let t := if termMatches w e then (if w.contains '*' && !whole then Tri.either else Tri.yes) else Tri.no
+    -- … and a wildcard term that matches only through a value holding a LINE FEED (`re*` vs "reached\ntimeout"): the
+    -- engine's regular expression does not let `*` cross a line break; left to the engine.  (Words themselves are delimited
+    -- by the BLANK only — a tab, a line feed or a carriage return is part of the word, for the record-level matcher and
+    -- the block bloom alike: `termMatches` splits at " ".)
+    let noLf : Event := { e with fields := e.fields.filter (fun (_, v) => !v.text.contains '\n') }
+    let t := if termMatches w e then
+        (if w.contains '*' && (!whole || !termMatches w noLf) then Tri.either else Tri.yes) else Tri.no
     (t, [])
   | .phrase cs p =>
     -- (wildcards inside CASE(…) / a phrase are matched by the engine against whole values: not generated, left open)
